@@ -5,6 +5,10 @@ NODE = 'pedal/cait/cait_node.py'
 MATCH = 'pedal/cait/stretchy_tree_matching.py'
 
 CASES = [
+    dict(name='revert-fix-cache-hit-keeps-stale-success', kind='mutant', rule='R8', key='reparse_if_needed[',
+         edits=[dict(file='pedal/cait/cait_api.py', old="        cait['error'] = errors.get(student_code)\n        cait['success'] = cait['error'] is None\n        return cait", new="        return cait")]),
+    dict(name='source-tree-keeps-stale-success', kind='mutant', rule='R8', key='reparse_if_needed[',
+         edits=[dict(file='pedal/cait/cait_api.py', old="        student_ast = report[SOURCE_TOOL_NAME]['ast']\n        cait['success'] = True\n        cait['error'] = None", new="        student_ast = report[SOURCE_TOOL_NAME]['ast']")]),
     dict(name='plus-row-says-Sub', kind='mutant', rule='R1', key="BIN_OP_NAMES['+']",
          edits=[dict(file=OPS, old='"+": "Add"', new='"+": "Sub"')]),
     dict(name='revert-fix-LtE', kind='mutant', rule='R1', key="COMPARE_OP_NAMES['<=']",
